@@ -1167,6 +1167,101 @@ Section BindProofs.
       symmetry. apply Nat.eqb_neq. specialize (Hb j cj Ej). lia.
   Qed.
 
+  (* ---- re-activation: _get_reference_activated_flow_instance ---- *)
+  Variable veq : value -> value -> bool.
+  Notation param_matched := (param_matched expr eval veq).
+  Notation params_match := (params_match expr eval veq).
+
+  (* what the loop computes, with no premise *)
+  Lemma params_match_true_iff ps : forall idx ev act,
+    params_match ps idx ev act = Some true <->
+    forall i p, nth_error ps i = Some p ->
+      exists val, aget (p_name p) act = Some val /\ param_matched ev val (idx + i) p = true.
+  Proof.
+    induction ps as [|q ps IH]; intros idx ev act; simpl.
+    - split; auto. intros _ i p H. destruct i; discriminate.
+    - split.
+      + intros H i p Hnth.
+        destruct (aget (p_name q) act) as [val|] eqn:Ea; [|discriminate].
+        destruct (param_matched ev val idx q) eqn:Em; [|discriminate].
+        destruct i as [|i]; simpl in Hnth.
+        * injection Hnth as <-. rewrite Nat.add_0_r. eauto.
+        * replace (idx + S i) with (S idx + i) by lia. apply (proj1 (IH (S idx) ev act) H i p Hnth).
+      + intros H. destruct (H 0 q eq_refl) as [val [Ea Em]]. rewrite Nat.add_0_r in Em.
+        rewrite Ea, Em. apply IH. intros i p Hnth.
+        replace (S idx + i) with (idx + S i) by lia. now apply H.
+  Qed.
+
+  Definition has_default (p : param) : bool := match p_default p with Some _ => true | None => false end.
+
+  (* for a parameter that is not bound both ways and that has an argument or a declared
+     default, the test compares the activated instance's value with the value the new call
+     BINDS to that parameter (ev_value: the rule of C08_binding) *)
+  Lemma param_matched_bound ev val idx p :
+    ahas (pos_key idx) ev && ahas (p_name p) ev = false ->
+    ahas (pos_key idx) ev || ahas (p_name p) ev || has_default p = true ->
+    param_matched ev val idx p = veq val (ev_value ev idx p).
+  Proof.
+    unfold Bind.param_matched, Bind.ev_value, ahas, has_default, Bind.default_val.
+    destruct (aget (pos_key idx) ev) as [v1|]; destruct (aget (p_name p) ev) as [v2|];
+      destruct (p_default p) as [e|]; simpl; intros H1 H2; try discriminate;
+      rewrite ?orb_false_r, ?andb_false_r; auto.
+  Qed.
+
+  (* Two activations are identified iff the parameter values they BIND are equal (Python ==):
+     [act] is `arguments` of the already activated instance, [ev] the new StartFlow event. *)
+  Theorem activation_identified_iff : forall ps ev act,
+    (forall i p, nth_error ps i = Some p -> ahas (pos_key i) ev && ahas (p_name p) ev = false) ->
+    (forall i p, nth_error ps i = Some p -> ahas (pos_key i) ev || ahas (p_name p) ev || has_default p = true) ->
+    (forall p, In p ps -> ahas (p_name p) act = true) ->
+    (params_match ps 0 ev act = Some true <->
+     forall i p, nth_error ps i = Some p -> veq (getN (p_name p) act) (ev_value ev i p) = true).
+  Proof.
+    intros ps ev act Hnd Hgiven Hact. rewrite params_match_true_iff. split.
+    - intros H i p Hnth. destruct (H i p Hnth) as [val [Ea Em]]. simpl in Em.
+      rewrite param_matched_bound in Em by auto. unfold getN. now rewrite Ea.
+    - intros H i p Hnth.
+      assert (Hin : In p ps) by (eapply nth_error_In; eauto).
+      specialize (Hact p Hin). unfold ahas in Hact.
+      destruct (aget (p_name p) act) as [val|] eqn:Ea; [|discriminate].
+      exists val. split; auto. simpl. rewrite param_matched_bound by auto.
+      specialize (H i p Hnth). unfold getN in H. now rewrite Ea in H.
+  Qed.
+
+  (* ... in particular when the activated instance was itself bound from a call [ev0] *)
+  Theorem two_activations_identified_iff : forall ps rs ev0 k0 a0 c0 ev,
+    wf_signature expr ps rs = true -> pos_contig ev0 k0 -> k0 <= List.length ps ->
+    bind ps rs ev0 = Bound a0 c0 ->
+    (forall i p, nth_error ps i = Some p -> ahas (pos_key i) ev && ahas (p_name p) ev = false) ->
+    (forall i p, nth_error ps i = Some p -> ahas (pos_key i) ev || ahas (p_name p) ev || has_default p = true) ->
+    (params_match ps 0 ev a0 = Some true <->
+     forall i p, nth_error ps i = Some p -> veq (ev_value ev0 i p) (ev_value ev i p) = true).
+  Proof.
+    intros ps rs ev0 k0 a0 c0 ev Hwf Hc Hk Hb Hnd Hgiven.
+    destruct (bind_spec ps rs ev0 k0 Hwf Hc Hk) as [a [c [Hb' [Hvals _]]]].
+    rewrite Hb in Hb'. injection Hb' as <- <-.
+    rewrite activation_identified_iff; auto.
+    - split; intros H i p Hnth; specialize (H i p Hnth); destruct (Hvals i p Hnth) as [_ Ha];
+        unfold getN in *; now rewrite Ha in *.
+    - intros p Hin. apply In_nth_error in Hin. destruct Hin as [i Hnth].
+      destruct (Hvals i p Hnth) as [_ Ha]. unfold ahas. now rewrite Ha.
+  Qed.
+
+  (* observation O6: a parameter without default whose argument is omitted never matches,
+     so such an activation is never identified with an earlier one (a new instance is started
+     every time, although both bind None) *)
+  Theorem obs_activation_omitted_without_default : forall ps ev act i p,
+    nth_error ps i = Some p ->
+    ahas (pos_key i) ev = false -> ahas (p_name p) ev = false -> p_default p = None ->
+    params_match ps 0 ev act <> Some true.
+  Proof.
+    intros ps ev act i p Hnth H1 H2 H3 H. rewrite params_match_true_iff in H.
+    destruct (H i p Hnth) as [val [_ Em]]. simpl in Em.
+    unfold Bind.param_matched, ahas in *.
+    destruct (aget (pos_key i) ev); [discriminate|]. destruct (aget (p_name p) ev); [discriminate|].
+    rewrite H3 in Em. simpl in Em. discriminate.
+  Qed.
+
 End BindProofs.
 
 (* ---------------------------------------------------------------------------------- *)
@@ -1294,4 +1389,36 @@ Module Examples.
     eexists. eexists. split; [vm_compute; reflexivity|]. split; [vm_compute; reflexivity|].
     repeat split; reflexivity.
   Qed.
+  (* regression documentation: the `or`-chain "simplification" of the re-activation test
+         val = event.arguments.get(name) or event.arguments.get(f"${idx}")
+         if val is None and default is not None: val = default
+         mismatch if val is None or val != activated.arguments[name]
+     treats a falsy NAMED argument as absent: `activate watch $level=0` after `activate watch`
+     (default 1) is identified with the level = 1 instance although the call binds level = 0 *)
+  Definition truthy (v : value) : bool :=
+    match v with
+    | VNone => false
+    | VBool b => b
+    | VInt z => negb (Z.eqb z 0)
+    | VFloat q => negb (Z.eqb q 0)
+    | VStr s => negb (String.eqb s "")
+    | VList l | VSet l => match l with [] => false | _ => true end
+    | VDict l => match l with [] => false | _ => true end
+    | _ => true
+    end.
+  Definition xveq (a b : value) : bool :=
+    match a, b with VInt x, VInt y => Z.eqb x y | VNone, VNone => true | _, _ => false end.
+  Definition or_chain_matched (ev : ctx) (val : value) (idx : nat) (p : param xe) : bool :=
+    let v1 := if truthy (getN (p_name p) ev) then getN (p_name p) ev else getN (pos_key idx) ev in
+    let v2 := match v1, p_default p with VNone, Some e => xeval [] e | _, _ => v1 end in
+    match v2 with VNone => false | _ => xveq v2 val end.
+  Definition watch : list (param xe) := [mkParam "level" (Some (XLit (VInt 1)))].
+  Definition ev_level0 : ctx := [("level", VInt 0); ("flow_id", VStr "watch"); ("activated", VBool true)].
+
+  Example or_chain_variant_refuted :
+    or_chain_matched ev_level0 (VInt 1) 0 (mkParam "level" (Some (XLit (VInt 1)))) = true /\
+    params_match xe xeval xveq watch 0 ev_level0 [("level", VInt 1)] = Some false /\
+    ev_value xe xeval ev_level0 0 (mkParam "level" (Some (XLit (VInt 1)))) = VInt 0 /\
+    ev_value xe xeval [("flow_id", VStr "watch")] 0 (mkParam "level" (Some (XLit (VInt 1)))) = VInt 1.
+  Proof. repeat split; reflexivity. Qed.
 End Examples.
